@@ -12,14 +12,37 @@ open Okane
 
 /-! ## shape -/
 
+/-- the fields of a `Txn` that charges, rates and transferred amounts never touch -/
+structure SameCore (t' t : Txn) : Prop where
+  date : t'.date = t.date
+  effectiveDate : t'.effectiveDate = t.effectiveDate
+  amount : t'.amount = t.amount
+  code : t'.code = t.code
+  balance : t'.balance = t.balance
+  payee : t'.payee = t.payee
+  destAccount : t'.destAccount = t.destAccount
+
+theorem SameCore.refl (t : Txn) : SameCore t t := ⟨rfl, rfl, rfl, rfl, rfl, rfl, rfl⟩
+
+theorem SameCore.trans {a b c : Txn} (h1 : SameCore a b) (h2 : SameCore b c) : SameCore a c :=
+  ⟨h1.date.trans h2.date, h1.effectiveDate.trans h2.effectiveDate, h1.amount.trans h2.amount, h1.code.trans h2.code,
+   h1.balance.trans h2.balance, h1.payee.trans h2.payee, h1.destAccount.trans h2.destAccount⟩
+
+theorem tryAddChargeNotIncluded_core (t t' : Txn) (p : String) (a : OwnedAmount)
+    (h : t.tryAddChargeNotIncluded p a = .ok t') : SameCore t' t := by
+  unfold Txn.tryAddChargeNotIncluded at h
+  split at h <;> try (simp at h; done)
+  split at h <;> try (simp at h; done)
+  simp at h
+  subst h
+  exact ⟨rfl, rfl, rfl, rfl, rfl, rfl, rfl⟩
+
 /-- `add_charges` only touches the charge list and the transferred amount. -/
-theorem addCharges_preserves (op : Option String) : ∀ (chs : List ChargeRecord) (t t' : Txn),
-    addCharges op t chs = .ok t' →
-    t'.date = t.date ∧ t'.effectiveDate = t.effectiveDate ∧ t'.amount = t.amount ∧ t'.code = t.code ∧
-    t'.balance = t.balance ∧ t'.payee = t.payee ∧ t'.destAccount = t.destAccount ∧ t'.rates = t.rates := by
+theorem addCharges_core (op : Option String) : ∀ (chs : List ChargeRecord) (t t' : Txn),
+    addCharges op t chs = .ok t' → SameCore t' t := by
   intro chs
   induction chs with
-  | nil => intro t t' h; simp [addCharges] at h; subst h; simp
+  | nil => intro t t' h; simp [addCharges] at h; subst h; exact SameCore.refl _
   | cons cr rest ih =>
     intro t t' h
     unfold addCharges at h
@@ -27,22 +50,54 @@ theorem addCharges_preserves (op : Option String) : ∀ (chs : List ChargeRecord
     · exact ih t t' h
     · split at h
       · simp at h
-      · split at h
+      · simp only at h
+        split at h
         · split at h <;> try (simp at h; done)
           rename_i t1 h1
-          have := ih t1 t' h
-          unfold Txn.tryAddChargeNotIncluded at h1
-          split at h1 <;> try (simp at h1; done)
-          split at h1 <;> try (simp at h1; done)
-          simp at h1
-          subst h1
-          simpa [Txn.setTransferredAmount] using this
-        · have := ih _ t' h
-          simpa [Txn.addCharge] using this
+          exact (ih t1 t' h).trans (tryAddChargeNotIncluded_core _ _ _ _ h1)
+        · exact (ih _ t' h).trans ⟨rfl, rfl, rfl, rfl, rfl, rfl, rfl⟩
+
+theorem addRate_core (t t' : Txn) (k : CommodityPair) (r : Dec) (h : t.addRate k r = .ok t') : SameCore t' t := by
+  unfold Txn.addRate at h
+  split at h <;> try (simp at h; done)
+  simp only at h
+  split at h
+  · split at h <;> try (simp at h; done)
+    simp at h; subst h; exact ⟨rfl, rfl, rfl, rfl, rfl, rfl, rfl⟩
+  · simp at h; subst h; exact ⟨rfl, rfl, rfl, rfl, rfl, rfl, rfl⟩
+
+theorem withAmountDetails_core (t t' : Txn) (d : TxDetails) (h : withAmountDetails t d = .ok t') : SameCore t' t := by
+  unfold withAmountDetails at h
+  split at h
+  · simp at h; subst h; exact SameCore.refl _
+  · split at h
+    · split at h
+      · split at h <;> try (simp at h; done)
+        rename_i t1 h1
+        simp at h; subst h
+        exact (⟨rfl, rfl, rfl, rfl, rfl, rfl, rfl⟩ : SameCore (t1.setTransferredAmount _) t1).trans (addRate_core _ _ _ _ h1)
+      · simp at h; subst h; exact ⟨rfl, rfl, rfl, rfl, rfl, rfl, rfl⟩
+    · simp at h; subst h; exact SameCore.refl _
 
 /-- the effective date `Txn::effective_date` leaves: the booking date when it differs from the value date -/
 def effectiveOf (e : CamtEntry) : Option Date :=
   if e.guessValueDate ≠ e.bookingDate then some e.bookingDate else none
+
+theorem entryBase_spec (cap : Captures) (cfg : CamtCfg) (e : CamtEntry) :
+    (entryBase cap cfg e).date = e.guessValueDate ∧ (entryBase cap cfg e).effectiveDate = effectiveOf e ∧
+    (entryBase cap cfg e).code = none ∧ (entryBase cap cfg e).balance = none ∧
+    (entryBase cap cfg e).amount = e.amount.toData e.cd := by
+  unfold entryBase effectiveOf Txn.setEffectiveDate
+  simp only [Txn.new]
+  split <;> split <;> simp_all [Txn.setClearState, Txn.destAccountOption]
+
+theorem detailBase_spec (cap : Captures) (cfg : CamtCfg) (e : CamtEntry) (d : TxDetails) :
+    (detailBase cap cfg e d).date = e.guessValueDate ∧ (detailBase cap cfg e d).effectiveDate = effectiveOf e ∧
+    (detailBase cap cfg e d).code = d.ref ∧ (detailBase cap cfg e d).balance = none ∧
+    (detailBase cap cfg e d).amount = d.amount.toData d.cd := by
+  unfold detailBase effectiveOf Txn.setEffectiveDate
+  simp only [Txn.new]
+  split <;> split <;> simp_all [Txn.setClearState, Txn.destAccountOption, Txn.codeOption]
 
 /-- **C18_shape (opening).**  When the statement has an opening balance and at least one entry, the output starts
 with the opening-balance transaction: amount zero in the balance's commodity, asserting the opening balance
@@ -52,7 +107,8 @@ theorem C18_shape_opening (st : Statement) (b : CamtBalance) (first : CamtEntry)
     ∃ t, openingTxn st = [t] ∧ t.payee = "Initial Balance" ∧ t.date = first.guessValueDate ∧
       t.amount = ⟨⟨false, 0, 0⟩, b.amount.currency⟩ ∧ t.balance = some (b.amount.toData b.cd) ∧
       t.destAccount = some "Equity:Adjustments" ∧ t.charges = [] ∧ t.transferredAmount = none ∧ t.rates = [] := by
-  refine ⟨_, ?_, ?_⟩
+  refine ⟨((Txn.new first.guessValueDate "Initial Balance" ⟨{}, (b.amount.toData b.cd).commodity⟩).setDestAccount
+      "Equity:Adjustments").setBalance (b.amount.toData b.cd), ?_, ?_⟩
   · unfold openingTxn findBalance
     rw [hb, he]
     rfl
@@ -66,14 +122,10 @@ theorem C18_shape_entry (cap : Captures) (cfg : CamtCfg) (e : CamtEntry) (t : Tx
     t.amount.commodity = e.amount.currency ∧
     (e.cd = .credit → t.amount.value = e.amount.value) ∧ (e.cd = .debit → t.amount.value = e.amount.value.negate) := by
   unfold entryTxn at h
-  obtain ⟨h1, h2, h3, h4, h5, _⟩ := addCharges_preserves _ _ _ _ h
-  rw [h1, h2, h3, h4, h5]
-  refine ⟨?_, ?_, ?_, ?_, ?_, ?_, ?_⟩
-  all_goals (try split)
-  all_goals simp [Txn.new, Txn.setEffectiveDate, Txn.destAccountOption, Txn.setClearState, effectiveOf, CamtAmount.toData]
-  all_goals (try split)
-  all_goals (try simp_all)
-  all_goals (try (intro hcd; simp [hcd]))
+  have hc := addCharges_core _ _ _ _ h
+  obtain ⟨b1, b2, b3, b4, b5⟩ := entryBase_spec cap cfg e
+  rw [hc.date, hc.effectiveDate, hc.code, hc.balance, hc.amount, b1, b2, b3, b4, b5]
+  refine ⟨rfl, rfl, rfl, rfl, rfl, ?_, ?_⟩ <;> intro hcd <;> simp [CamtAmount.toData, hcd]
 
 /-- **C18_shape (detail of a batched entry).**  One transaction per detail: dated like the entry, the detail's
 reference as code, the account moved by the detail's amount with the detail's own credit/debit indicator. -/
@@ -83,53 +135,13 @@ theorem C18_shape_detail (cap : Captures) (cfg : CamtCfg) (e : CamtEntry) (d : T
     t.amount.commodity = d.amount.currency ∧
     (d.cd = .credit → t.amount.value = d.amount.value) ∧ (d.cd = .debit → t.amount.value = d.amount.value.negate) := by
   unfold detailTxn at h
-  simp only at h
   split at h <;> try (simp at h; done)
   rename_i t0 h0
   split at h <;> try (simp at h; done)
   rename_i t2 h2
-  obtain ⟨a1, a2, a3, a4, a5, _⟩ := addCharges_preserves _ _ _ _ h
-  obtain ⟨b1, b2, b3, b4, b5, _⟩ := addCharges_preserves _ _ _ _ h2
-  rw [a1, a2, a3, a4, a5, b1, b2, b3, b4, b5]
-  -- `t0`: after the amount details
-  have ht0 : t0.date = e.guessValueDate ∧ t0.effectiveDate = effectiveOf e ∧ t0.code = d.ref ∧ t0.balance = none ∧
-      t0.amount = d.amount.toData d.cd := by
-    split at h0
-    · simp at h0; subst h0
-      refine ⟨?_, ?_, ?_, ?_, ?_⟩ <;> (try split) <;>
-        simp [Txn.new, Txn.setEffectiveDate, Txn.destAccountOption, Txn.setClearState, Txn.codeOption, effectiveOf] <;>
-        (try split) <;> simp_all
-    · split at h0
-      · split at h0 <;> try (simp at h0; done)
-        rename_i t1 h1
-        simp at h0; subst h0
-        have hr : t1.date = e.guessValueDate ∧ t1.effectiveDate = effectiveOf e ∧ t1.code = d.ref ∧ t1.balance = none ∧
-            t1.amount = d.amount.toData d.cd := by
-          split at h1
-          · unfold Txn.addRate at h1
-            split at h1 <;> try (simp at h1; done)
-            simp only at h1
-            split at h1
-            · split at h1 <;> try (simp at h1; done)
-              simp at h1; subst h1
-              refine ⟨?_, ?_, ?_, ?_, ?_⟩ <;> (try split) <;>
-                simp [Txn.new, Txn.setEffectiveDate, Txn.destAccountOption, Txn.setClearState, Txn.codeOption, effectiveOf] <;>
-                (try split) <;> simp_all
-            · simp at h1; subst h1
-              refine ⟨?_, ?_, ?_, ?_, ?_⟩ <;> (try split) <;>
-                simp [Txn.new, Txn.setEffectiveDate, Txn.destAccountOption, Txn.setClearState, Txn.codeOption, effectiveOf] <;>
-                (try split) <;> simp_all
-          · simp at h1; subst h1
-            refine ⟨?_, ?_, ?_, ?_, ?_⟩ <;> (try split) <;>
-              simp [Txn.new, Txn.setEffectiveDate, Txn.destAccountOption, Txn.setClearState, Txn.codeOption, effectiveOf] <;>
-              (try split) <;> simp_all
-        simpa [Txn.setTransferredAmount] using hr
-      · simp at h0; subst h0
-        refine ⟨?_, ?_, ?_, ?_, ?_⟩ <;> (try split) <;>
-          simp [Txn.new, Txn.setEffectiveDate, Txn.destAccountOption, Txn.setClearState, Txn.codeOption, effectiveOf] <;>
-          (try split) <;> simp_all
-  obtain ⟨c1, c2, c3, c4, c5⟩ := ht0
-  rw [c1, c2, c3, c4, c5]
+  have hc := ((addCharges_core _ _ _ _ h).trans (addCharges_core _ _ _ _ h2)).trans (withAmountDetails_core _ _ _ h0)
+  obtain ⟨b1, b2, b3, b4, b5⟩ := detailBase_spec cap cfg e d
+  rw [hc.date, hc.effectiveDate, hc.code, hc.balance, hc.amount, b1, b2, b3, b4, b5]
   refine ⟨rfl, rfl, rfl, rfl, rfl, ?_, ?_⟩ <;> intro hcd <;> simp [CamtAmount.toData, hcd]
 
 /-- number of transactions an entry yields: itself, or one per detail -/
@@ -202,7 +214,7 @@ theorem C18_shape_closing (cap : Captures) (cfg : CamtCfg) (st : Statement) (txn
   split at h <;> try (simp at h; done)
   rename_i ts hts
   simp at h
-  refine ⟨ts, rfl, h.symm, ?_, ?_⟩
+  refine ⟨ts, hts, h.symm, ?_, ?_⟩
   · rw [← h]
     have hc := C18_shape_count cap cfg _ _ hts
     unfold setLastBalance
@@ -240,5 +252,55 @@ theorem C18_accepts (cap : Captures) (cfg : CamtCfg) (st : Statement) (txns : Li
       Amount.getPart (Balance.get stt.bal cfg.account) c = closing.toRat := by
   obtain ⟨trs, stt, hl, hp, hv⟩ := run_accepts cfg.account c hc hne date opening txns hcons.1
   exact ⟨trs, stt, hl, hp, by rw [hv, hcons.2]⟩
+
+/-! ## non-vacuity -/
+
+/-- opening 100.00, a credit of 1000 (value date ≠ booking date), a debit entry of 52 with a 2.00 charge included
+(amount details say 50), a debit of 30 with a 1.50 charge not included, closing 1018.00 -/
+def exStatement : Statement :=
+  { balances := [⟨.opening, ⟨⟨false, 10000, 2⟩, "CHF"⟩, .credit⟩, ⟨.other, ⟨⟨false, 1, 0⟩, "CHF"⟩, .credit⟩,
+                 ⟨.closing, ⟨⟨false, 101800, 2⟩, "CHF"⟩, .credit⟩]
+    entries :=
+      [ { amount := ⟨⟨false, 1000, 0⟩, "CHF"⟩, cd := .credit, bookingDate := ⟨2024, 1, 3⟩, valueDate := some ⟨2024, 1, 2⟩,
+          domain := none, charges := [], details := [], additionalInfo := "Credit" },
+        { amount := ⟨⟨false, 52, 0⟩, "CHF"⟩, cd := .debit, bookingDate := ⟨2024, 1, 4⟩, valueDate := none, domain := none,
+          charges := [⟨⟨⟨false, 200, 2⟩, "CHF"⟩, .debit, true⟩],
+          details := [ { ref := some "R1", amount := ⟨⟨false, 52, 0⟩, "CHF"⟩, cd := .debit,
+                         txAmount := some ⟨⟨⟨false, 50, 0⟩, "CHF"⟩, none⟩, charges := [] } ],
+          additionalInfo := "Debit" },
+        { amount := ⟨⟨false, 30, 0⟩, "CHF"⟩, cd := .debit, bookingDate := ⟨2024, 1, 5⟩, valueDate := none, domain := none,
+          charges := [⟨⟨⟨false, 150, 2⟩, "CHF"⟩, .debit, false⟩], details := [], additionalInfo := "Debit" } ] }
+
+def exCamtCfg (o : RowOrder) : CamtCfg := { account := "Assets:Okane Bank", operator := some "Okane Bank (fee)", rowOrder := o, rewrite := [] }
+
+/-- the statement imports into 4 transactions (opening + 3), the first dated by the value date with the booking date as
+effective date, and the book-keeping model accepts `fund :: import` and ends at the closing balance 1018.00 -/
+example :
+    (match camtStatement (fun _ _ => none) (exCamtCfg .oldToNew) exStatement with
+     | .ok txns =>
+       txns.length == 4 &&
+       txns.map (·.date) == [⟨2024, 1, 2⟩, ⟨2024, 1, 2⟩, ⟨2024, 1, 4⟩, ⟨2024, 1, 5⟩] &&
+       txns.map (·.effectiveDate) == [none, some ⟨2024, 1, 3⟩, none, none] &&
+       (match ledgerOf "Assets:Okane Bank" txns with
+        | .ok trs =>
+          (match process (Entry.txn (fundTxn "Assets:Okane Bank" ⟨2024, 1, 1⟩ ⟨false, 10000, 2⟩ "CHF") :: trs.map Entry.txn) with
+           | .ok st => Amount.getPart (Balance.get st.bal "Assets:Okane Bank") "CHF" == (⟨false, 101800, 2⟩ : Dec).toRat
+           | _ => false)
+        | _ => false)
+     | _ => false) = true := by
+  decide +kernel
+
+/-- `ConsistentStatement` is satisfiable by a non-trivial output: the opening transaction and a credit. -/
+example : ConsistentStatement "Assets:Okane Bank" "CHF" ⟨false, 10000, 2⟩ ⟨false, 110000, 2⟩
+    [ { date := ⟨2024, 1, 2⟩, payee := "Initial Balance", amount := ⟨⟨false, 0, 0⟩, "CHF"⟩,
+        destAccount := some "Equity:Adjustments", balance := some ⟨⟨false, 10000, 2⟩, "CHF"⟩ },
+      { date := ⟨2024, 1, 2⟩, payee := "unknown payee", amount := ⟨⟨false, 1000, 0⟩, "CHF"⟩,
+        balance := some ⟨⟨false, 110000, 2⟩, "CHF"⟩ } ] := by
+  refine ⟨⟨⟨rfl, by simp, by simp, rfl, by simp⟩, by unfold Txn.Balanced; decide +kernel, ⟨?_, by decide⟩,
+           Or.inr ⟨_, rfl, by decide +kernel⟩,
+           ⟨rfl, by simp, by simp, rfl, by simp⟩, by unfold Txn.Balanced; decide +kernel, ⟨?_, by decide⟩,
+           Or.inr ⟨_, rfl, by decide +kernel⟩, trivial⟩, by decide +kernel⟩
+  · intro fb hfb; rcases hfb with h | h <;> subst h <;> decide
+  · intro fb hfb; rcases hfb with h | h <;> subst h <;> decide
 
 end Okane.Import
